@@ -84,6 +84,20 @@ def _diff(a, b, path=''):
     return []
 
 
+def _has_bad_key_or_type(options):
+    """the request as sent carries an unknown option key or an ill-typed
+    option value (rather than a well-typed value that is refused later)"""
+    if not isinstance(options, dict):
+        return True
+    for kk, vv in options.items():
+        if kk == 'bogus_key':
+            return True
+        if kk in BAD_TYPED and BAD_TYPED[kk] == vv and \
+                type(BAD_TYPED[kk]) == type(vv):
+            return True
+    return False
+
+
 def execute(case):
     hc = {"watchers": copy.deepcopy(WATCHERS), "ops": [],
           "tape": [], "default_beh": dict(
@@ -107,11 +121,19 @@ def execute(case):
             if w.dead or w.exited:
                 break
             before = snapshot(h)
+            sent_options = None
             if msg.get("raw") is not None:
                 req = w.send_raw(msg["raw"].encode('latin-1'))
             else:
                 val = copy.deepcopy(msg["value"])
                 pr = val.get("properties")
+                if isinstance(pr, dict) and isinstance(
+                        pr.get("options"), dict) and \
+                        "__pairs__" in pr["options"]:
+                    od = {}
+                    for kk_, vv_ in pr["options"]["__pairs__"]:
+                        od[kk_] = vv_
+                    pr["options"] = od
                 if isinstance(pr, dict) and ("@worker" in pr.values() or
                                              "@child" in pr.values()):
                     nm = pr.get("name")
@@ -123,6 +145,8 @@ def execute(case):
                             pr[kk_] = wk
                         elif vv_ == "@child":
                             pr[kk_] = kids[0] if kids else 99998
+                if isinstance(pr, dict):
+                    sent_options = pr.get("options")
                 req = w.send_raw(json.dumps(val).encode())
             after = snapshot(h)
             rep = req.reply() if req.sync_replies else None
@@ -150,10 +174,7 @@ def execute(case):
                     if 'arbiter is already running' in reason or \
                             'arbiter is restarting' in reason:
                         tag = 'set:options-applied-despite-conflict'
-                    elif any(x.startswith(('ill-typed-option',
-                                         'unknown-option-key',
-                                         'wrong-type:options'))
-                           for x in kinds):
+                    elif _has_bad_key_or_type(sent_options):
                         tag = 'set:applied-before-key-or-type-validation'
                     else:
                         tag = ('set:earlier-options-applied-before-the-'
@@ -367,10 +388,10 @@ def _strategy():
         if isinstance(p.get("options"), tuple):
             p["options"] = list(p["options"])
         elif isinstance(p.get("options"), list):
-            od = {}
-            for kk, vv in p["options"]:
-                od[kk] = vv
-            p["options"] = od
+            # option order matters (options are applied one by one) and a
+            # JSON object in a replay file does not keep it: stored as pairs,
+            # turned into an object when the message is sent
+            p["options"] = {"__pairs__": [list(x) for x in p["options"]]}
         value = {"id": "q", "command": cmd, "properties": p}
         if 'ill-typed-envelope' in kinds:
             if draw(st.integers(0, 3)) == 0:
